@@ -250,6 +250,28 @@ var perturbations = []perturbation{
 		n.Flag.Excl = !n.Flag.Excl
 		return n, true
 	}, sameFull},
+	{"metadata-store", func(r *rng, c *EvalCase) (*EvalCase, bool) {
+		// metadata of the flags and segments the evaluation *reaches through the store* (prerequisites,
+		// referenced segments): everything that is neither used by evaluation nor reported in a
+		// prerequisite event (version, track-events settings and excludeFromSummaries are reported)
+		if len(c.Store.Flags)+len(c.Store.Segments) == 0 {
+			return nil, false
+		}
+		n := cloneCase(c)
+		for i := range n.Store.Flags {
+			m := &n.Store.Flags[i].Meta
+			m.Deleted = !m.Deleted
+			m.CSA = WCSA{Mobile: r.bool(), Env: r.bool(), Explicit: r.bool()}
+			m.Debug = fmt.Sprint(1600000000000 + r.intn(1000))
+			m.Sampling = ip(r.intn(100))
+			m.Mig = &WMig{CheckRatio: ip(r.intn(10))}
+		}
+		for i := range n.Store.Segments {
+			n.Store.Segments[i].Deleted = !n.Store.Segments[i].Deleted
+			n.Store.Segments[i].Version += 1 + r.intn(5)
+		}
+		return n, true
+	}, sameFull},
 	{"reorder-clause-values", func(r *rng, c *EvalCase) (*EvalCase, bool) {
 		n := cloneCase(c)
 		changed := false
@@ -404,7 +426,7 @@ func checkC20(seed uint64, replayDir, corpusDir string) (map[string]any, int) {
 		}
 	}
 	nv := reportUnitDisagreements("C20", t.dis, replayDir)
-	return t.frag("(configuration, context) pairs x seven perturbation families (unreferenced attribute, unreferenced kind, metadata, value/key order, clause order, appended rule, inserted never-matching rule): relation evaluated on the real code's full observable behaviour (oracle-free), model agreement on both sides; non-trivial = distinct perturbed cases on which the relation was evaluated", nil), nv
+	return t.frag("(configuration, context) pairs x eight perturbation families (unreferenced attribute, unreferenced kind, metadata of the evaluated flag, metadata of stored flags and segments, value/key order, clause order, appended rule, inserted never-matching rule): relation evaluated on the real code's full observable behaviour (oracle-free), model agreement on both sides; non-trivial = distinct perturbed cases on which the relation was evaluated", nil), nv
 }
 
 func onlyBSSDiffers(a, b *WObs) bool {
@@ -428,7 +450,7 @@ func (m *mutableStore) GetSegment(k string) *ldmodel.Segment         { return m.
 func snapshot(store *realStore, flag *ldmodel.FeatureFlag, ctx ldcontext.Context) string {
 	var sb strings.Builder
 	sb.WriteString(flagDumpJSON(flag))
-	sb.WriteString(fmt.Sprintf("%#v", *flag)) // every field, exported or not
+	sb.WriteString(capDump(flag)) // every field, exported or not, slices up to their capacity
 	keys := []string{}
 	for k := range store.flags {
 		keys = append(keys, k)
@@ -436,7 +458,7 @@ func snapshot(store *realStore, flag *ldmodel.FeatureFlag, ctx ldcontext.Context
 	sortStrings(keys)
 	for _, k := range keys {
 		sb.WriteString(flagDumpJSON(store.flags[k]))
-		sb.WriteString(fmt.Sprintf("%#v", *store.flags[k]))
+		sb.WriteString(capDump(store.flags[k]))
 	}
 	keys = keys[:0]
 	for k := range store.segments {
@@ -445,10 +467,10 @@ func snapshot(store *realStore, flag *ldmodel.FeatureFlag, ctx ldcontext.Context
 	sortStrings(keys)
 	for _, k := range keys {
 		sb.WriteString(segDumpJSON(store.segments[k]))
-		sb.WriteString(fmt.Sprintf("%#v", *store.segments[k]))
+		sb.WriteString(capDump(store.segments[k]))
 	}
 	sb.WriteString(canon(dumpCtx(ctx, "")))
-	sb.WriteString(fmt.Sprintf("%#v", ctx))
+	sb.WriteString(capDump(ctx))
 	return sb.String()
 }
 
